@@ -1,8 +1,7 @@
 (* Property C07 — override changes only the expectations of records that did not pass.
-   Statements only (record level; that the file-level driver writes every record of every file,
-   in order, through this function is what the correspondence on whole trees checks, together
-   with C05 for the formatting of unchanged records). *)
-From SLT Require Import JudgeSpec Update UpdateSpec UpdateProofs.
+   Statements only: record level, and (C07_file_frame_and_halt) the file-level driver over the
+   flattened record list of a file with its includes.  C05 covers the formatting of unchanged records. *)
+From SLT Require Import JudgeSpec Runner Update UpdateSpec UpdateProofs UpdateFile1 UpdateFile.
 
 Theorem C07_frame :
   forall re sep strict r o r', update_record re sep strict r o = Some r' -> same_but_expectation r r'.
@@ -40,3 +39,25 @@ Theorem C07_pass_keeps :
     end.
 Proof. exact update_pass_keeps. Qed.
 Print Assumptions C07_pass_keeps.
+
+(* FILE LEVEL: the updater writes one record per input record, of the same kind at the same
+   position (include markers, halts and every non-executable record verbatim), an executable record
+   unchanged or changed in its expectation only; and from the first `halt` of the flattened list
+   on - in whichever file the following records lie - every record is written exactly as it was *)
+Theorem C07_file_frame_and_halt :
+  forall re sep strict substitute sc main rs st w written ev kn,
+    update_loop re sep strict substitute sc false rs [mkItem main []] false st w [] [] []
+      = UOk written ev kn ->
+    let rs' := updated_records re sep strict substitute sc rs st w in
+    length rs' = length rs /\
+    Forall2 (fun r r' => rkind_of r' = rkind_of r /\
+                         (rkind_of r <> KOther -> r' = r) /\
+                         (r' = r \/ same_but_expectation r r')) rs rs' /\
+    (forall pre l post,
+        rs = pre ++ RHalt l :: post -> Forall (fun r => rkind_of r <> KHalt) pre ->
+        exists pre', rs' = pre' ++ RHalt l :: post /\ length pre' = length pre) /\
+    (forall j i d,
+        (j <= i)%nat -> (j < length rs)%nat -> rkind_of (nth j rs d) = KHalt ->
+        nth i rs' d = nth i rs d).
+Proof. exact update_after_halt_unchanged. Qed.
+Print Assumptions C07_file_frame_and_halt.
